@@ -234,6 +234,134 @@ impl Target {
     }
 }
 
+impl Target {
+    /// Requests that must leave no trace: an upload whose transfer breaks off half way, and
+    /// uploads refused for their content type, on both upload routes.
+    fn disturb(&mut self, n: usize) {
+        if !self.sut.spec.is_http() {
+            return;
+        }
+        let junk: Vec<u8> = (0..(17 + n % 5000)).map(|i| (i * 3 + n) as u8 | 0x80).collect();
+        for (route, ct) in [("add-version", HS_CT), ("add-snapshot", SNAP_CT)] {
+            let uri = format!("/v1/client/{route}/{}", self.latest);
+            let h = |ct: &str| vec![("X-Client-Id".to_string(), self.client.to_string().into_bytes()), ("Content-Type".to_string(), ct.as_bytes().to_vec())];
+            let _ = self.sut.send_http(&HttpReq { method: "POST".into(), uri: uri.clone(), headers: h(ct), body: Body::ThenError(vec![junk.clone(), junk[..7].to_vec()]) });
+            let _ = self.sut.send_http(&HttpReq { method: "POST".into(), uri, headers: h("text/plain"), body: Body::Chunks(vec![junk.clone()]) });
+        }
+    }
+}
+
+/// All orders in which two streams with `a` and `b` items can deliver them.
+pub fn interleavings(a: usize, b: usize) -> Vec<Vec<usize>> {
+    fn rec(a: usize, b: usize, cur: &mut Vec<usize>, out: &mut Vec<Vec<usize>>) {
+        if a == 0 && b == 0 {
+            out.push(cur.clone());
+            return;
+        }
+        if a > 0 {
+            cur.push(0);
+            rec(a - 1, b, cur, out);
+            cur.pop();
+        }
+        if b > 0 {
+            cur.push(1);
+            rec(a, b - 1, cur, out);
+            cur.pop();
+        }
+    }
+    let mut out = vec![];
+    rec(a, b, &mut vec![], &mut out);
+    out
+}
+
+/// Two uploads in flight on one worker, chunk deliveries interleaved in every possible order.
+/// `kinds`: (route of upload A, route of upload B), each "version" or "snapshot"; A belongs to
+/// client 0, B to client 1.
+fn interleaved(spec: SutSpec, seed: u64, kinds: (&str, &str), max_chunks: usize) -> (u64, Vec<Value>) {
+    use crate::http::Gate;
+    let mut n = 0u64;
+    let mut findings = vec![];
+    let ca = client_uuid(seed, 0);
+    let cb = client_uuid(seed, 1);
+    let mut sut = Sut::new(spec, Config { days: 14, versions: 100 });
+    // both clients start with one version so that snapshots have something to attach to
+    let mut latest = [Uuid::nil(), Uuid::nil()];
+    for (i, c) in [ca, cb].iter().enumerate() {
+        match sut.call(&Req::AddVersion { c: *c, parent: Uuid::nil(), data: b"first".to_vec() }) {
+            Resp::AvOk { id, .. } => latest[i] = id,
+            other => return (0, vec![json!({"class": "interleaved|setup", "payload": "-", "chunking": "-", "msg": format!("setup failed: {:?}", other)})]),
+        }
+    }
+    let mut serial = 0usize;
+    for ma in 1..=max_chunks {
+        for mb in 1..=max_chunks {
+            for order in interleavings(ma + 1, mb + 1) {
+                serial += 1;
+                n += 1;
+                let mk = |who: usize, m: usize| -> Vec<Vec<u8>> { (0..m).map(|k| format!("<{}{}:{}:{}>", if who == 0 { 'A' } else { 'B' }, serial, k, "x".repeat(k * 3 + who)).into_bytes()).collect() };
+                let (cha, chb) = (mk(0, ma), mk(1, mb));
+                let (da, db): (Vec<u8>, Vec<u8>) = (cha.concat(), chb.concat());
+                let gate = Gate::new(order.clone());
+                let req = |who: usize, kind: &str, chunks: &Vec<Vec<u8>>| -> HttpReq {
+                    let c = if who == 0 { ca } else { cb };
+                    let (route, ct) = if kind == "version" { ("add-version", HS_CT) } else { ("add-snapshot", SNAP_CT) };
+                    HttpReq {
+                        method: "POST".into(),
+                        uri: format!("/v1/client/{route}/{}", latest[who]),
+                        headers: vec![("X-Client-Id".into(), c.to_string().into_bytes()), ("Content-Type".into(), ct.as_bytes().to_vec())],
+                        body: Body::Gated { chunks: chunks.clone(), id: who, gate: gate.clone() },
+                    }
+                };
+                let (ra, rb) = sut.send_http_pair(&req(0, kinds.0, &cha), &req(1, kinds.1, &chb));
+                let label = format!("{}||{} chunks {}x{} order {:?}", kinds.0, kinds.1, ma, mb, order);
+                for (who, (r, kind, data)) in [(ra, kinds.0, &da), (rb, kinds.1, &db)].into_iter().enumerate() {
+                    let c = if who == 0 { ca } else { cb };
+                    let raw = match r {
+                        Ok(raw) => raw,
+                        Err(e) => {
+                            findings.push(json!({"class": "interleaved|not-served", "payload": label, "chunking": "gated", "msg": e}));
+                            continue;
+                        }
+                    };
+                    if raw.status != 200 {
+                        findings.push(json!({"class": "interleaved|not-served", "payload": label, "chunking": "gated", "msg": format!("upload {} answered {}", who, raw.status)}));
+                        continue;
+                    }
+                    if kind == "version" {
+                        let parent = latest[who];
+                        match sut.call(&Req::GetChild { c, parent }) {
+                            Resp::GcFound { id, data: d2, .. } => {
+                                if &d2 != data {
+                                    findings.push(json!({"class": "interleaved|bytes-differ", "payload": label, "chunking": "gated", "msg": format!("two uploads in flight on one worker: client {} uploaded {:?} and reads back {:?}", who, String::from_utf8_lossy(data), String::from_utf8_lossy(&d2))}));
+                                }
+                                latest[who] = id;
+                            }
+                            other => findings.push(json!({"class": "interleaved|not-served", "payload": label, "chunking": "gated", "msg": format!("read-back answered {:?}", other)})),
+                        }
+                    } else {
+                        match sut.call(&Req::GetSnapshot { c }) {
+                            Resp::GsFound { data: d2, .. } => {
+                                if &d2 != data {
+                                    findings.push(json!({"class": "interleaved|bytes-differ", "payload": label, "chunking": "gated", "msg": format!("two uploads in flight on one worker: client {} uploaded snapshot {:?} and reads back {:?}", who, String::from_utf8_lossy(data), String::from_utf8_lossy(&d2))}));
+                                }
+                            }
+                            other => findings.push(json!({"class": "interleaved|not-served", "payload": label, "chunking": "gated", "msg": format!("snapshot read-back answered {:?}", other)})),
+                        }
+                        // a further snapshot needs a newer version
+                        if let Resp::AvOk { id, .. } = sut.call(&Req::AddVersion { c, parent: latest[who], data: b"next".to_vec() }) {
+                            latest[who] = id;
+                        }
+                    }
+                }
+                if findings.len() > 20 {
+                    return (n, findings);
+                }
+            }
+        }
+    }
+    (n, findings)
+}
+
 /// One task: {spec, route, items:[{class,len} | {text} | {byte} | {bytes2}] , chunking:bool}
 pub fn worker_main() {
     crate::pool::serve(|pv| {
@@ -242,6 +370,16 @@ pub fn worker_main() {
             let spec = crate::sut::spec_from_name(task["spec"].as_str().unwrap()).expect("spec");
             let route = task["route"].as_str().unwrap().to_string();
             let chunked = task["chunking"].as_bool().unwrap_or(false);
+            if let Some(k) = task["interleaved"].as_array() {
+                let ka = k[0].as_str().unwrap_or("version").to_string();
+                let kb = k[1].as_str().unwrap_or("version").to_string();
+                let mc = task["max_chunks"].as_u64().unwrap_or(3) as usize;
+                let r = std::panic::catch_unwind(std::panic::AssertUnwindSafe(|| interleaved(spec, seed, (&ka, &kb), mc)));
+                return match r {
+                    Ok((n, f)) => json!({"roundtrips": n, "chunkings": 0, "interleavings": n, "findings": f}),
+                    Err(e) => json!({"error": format!("payload worker panicked: {}", crate::sut::panic_msg(e))}),
+                };
+            }
             let r = std::panic::catch_unwind(std::panic::AssertUnwindSafe(|| {
                 let mut t = Target::new(spec, seed);
                 let mut n = 0u64;
@@ -282,6 +420,10 @@ pub fn worker_main() {
                     }
                     for (body, blabel) in bodies {
                         n += 1;
+                        // every few uploads: broken-off and refused uploads in between must leave no trace
+                        if chunked || n % 7 == 0 {
+                            t.disturb(n as usize);
+                        }
                         if body.is_some() {
                             chunkings += 1;
                         }
